@@ -966,6 +966,12 @@ def range_limits(ctx, label, case, curve, h0, jump_v):
                ("ample", big, big)]
     known_key = KNOWN_SLOW
     prev_raised_flag = False
+    lo0 = h0.vMin + h0.vBracketLow
+    spurious_start = None
+    if jump_v is not None:
+        st = [c for c in curve if abs(c[0] - lo0) < 1e-12]
+        if st and abs(st[0][1] - Tn) > 5e-3 * Tn:
+            spurious_start = st[0][:3]
     for which, TML, TMH in configs:
         if TML <= Tn or TMH <= Tn:
             continue          # the nucleation temperature must be inside both tables
@@ -1018,6 +1024,15 @@ def range_limits(ctx, label, case, curve, h0, jump_v):
                 ctx.fail_input("fastestDeflag()=%.6f is the position of the slow-wall jump "
                                "(spurious solution below vw=%.4g) [%s]" % (vmax, jump_v, label),
                                rep, key=known_key)
+                continue
+            if jump_v is not None and spurious_start is not None and (
+                    spurious_start[2] > TML or spurious_start[1] > TMH):
+                # same finding, other symptom: the spurious values at the slow end of the
+                # bracket are already above the cut, brentq sees no sign change
+                ctx.fail_input("fastestDeflag()=%.6f: the spurious slow-wall solution at "
+                               "vw=%.4g (T+=%.6f T-=%.6f) is above the cut, no sign change for "
+                               "brentq [%s]" % ((vmax,) + tuple(spurious_start) + (label,)), rep,
+                               key=known_key)
                 continue
             # every slower wall of the window inside both ranges
             top = min(vmax, h.vJ - h.vBracketLow) - 1e-6
